@@ -14,6 +14,7 @@ CONSTANTS
   Mods = {"m", "n"}
   Segs = {"a", "A", "%2e%2e", ""}
   SegsAll = {"a"}
+  NearSpread = 1
   MaxSegs = 2
 INVARIANT Emit
 CHECK_DEADLOCK FALSE
